@@ -57,29 +57,91 @@ def all_selections():
                 yield [(s, locs) for s in systems]
 
 
-def requested(sel_value: str) -> dict[str, set[str]] | None:
-    """the property's reading of a `drm` value: system -> requested locations.
-    None when the value is not one this reader understands (duplicate systems …)."""
+def requested_ex(sel_value: str):
+    """the property's reading of a `drm` value: (system -> requested locations, ambiguous systems).
+    A bare name means every location; `all` means every system with every location, `all-<locs>`
+    every system with those locations.  A system named more than once with different location
+    lists is *ambiguous* (the documentation does not say which entry counts): the last entry is
+    reported and the system is listed in the second result.  None when the value is not one this
+    reader understands (unknown names, `all-…` mixed with further suffixed items)."""
     v = sel_value.lower()
     if v in ("", "none"):
-        return {}
-    if v == "all":
-        return {s: set(LOCATIONS) for s in SYSTEMS}
-    if v.startswith("all-"):
-        locs = v.split("-")[1:]
-        if not locs or any(x not in LOCATIONS for x in locs):
-            return None
-        return {s: set(locs) for s in SYSTEMS}
+        return {}, set()
+    items = v.split(",")
     out: dict[str, set[str]] = {}
-    for item in v.split(","):
+    ambiguous: set[str] = set()
+
+    def put(name, locs):
+        if name in out and out[name] != locs:
+            ambiguous.add(name)
+        out[name] = locs
+
+    if items[0] == "all" or items[0].startswith("all-"):
+        locs = items[0].split("-")[1:]
+        if any(x not in LOCATIONS for x in locs) or (items[0] != "all" and not locs):
+            return None
+        if len(items) > 1 and (locs or any("-" in it for it in items[1:])):
+            return None          # `all` combined with suffixed items: meaning not documented
+        for s in SYSTEMS:
+            put(s, set(locs) if locs else set(LOCATIONS))
+        items = items[1:]
+    for item in items:
         parts = item.split("-")
-        if parts[0] not in SYSTEMS or parts[0] in out:
+        if parts[0] not in SYSTEMS:
             return None
         locs = parts[1:]
         if any(x not in LOCATIONS for x in locs) or (len(parts) > 1 and not locs):
             return None
-        out[parts[0]] = set(locs) if locs else set(LOCATIONS)
+        put(parts[0], set(locs) if locs else set(LOCATIONS))
+    return out, ambiguous
+
+
+def requested(sel_value: str) -> dict[str, set[str]] | None:
+    """as requested_ex, None also when any system is ambiguous"""
+    r = requested_ex(sel_value)
+    if r is None or r[1]:
+        return None
+    return r[0]
+
+
+def targeted_mixed_selections() -> list[str]:
+    """mixed-form `drm` values: one item with an explicit location list next to a bare name, in
+    both orders, for every ordered pair of systems and every non-empty location subset; plus
+    three-item mixes, differing per-item suffixes, repeated systems and `all` with names"""
+    loc_subsets = [list(c) for n in (1, 2, 3) for c in itertools.combinations(LOCATIONS, n)]
+    out = []
+    for a, b in itertools.permutations(SYSTEMS, 2):
+        for locs in loc_subsets:
+            suff = "-".join([a] + locs)
+            out.append(f"{suff},{b}")
+            out.append(f"{b},{suff}")
+    for a, b, c in itertools.permutations(SYSTEMS, 3):
+        out.append(f"{a}-cenc,{b},{c}")
+        out.append(f"{a},{b}-pro,{c}")
+        out.append(f"{a}-cenc,{b}-moov,{c}")
+        out.append(f"{a}-pro-cenc,{b}-moov-cenc,{c}-pro")
+    for a in SYSTEMS:
+        out += [f"{a}-cenc,{a}", f"{a},{a}-cenc", f"{a}-moov,{a}-cenc", f"{a}-cenc,{a}-moov", f"{a}-pro,{a}-pro",
+                f"all,{a}", f"all,{a}-cenc", f"all-cenc,{a}"]
     return out
+
+
+def random_mixed_selection(rng) -> str:
+    items = []
+    for _ in range(rng.choice([1, 2, 2, 3, 3, 4])):
+        name = rng.choice(SYSTEMS)
+        if rng.random() < .45:
+            items.append(name)
+        else:
+            locs = rng.sample(LOCATIONS, rng.choice([1, 1, 2, 3]))
+            items.append("-".join([name] + locs))
+    v = ",".join(items)
+    r = rng.random()
+    if r < .06:
+        v = "all," + v
+    elif r < .12:
+        v = v.upper()
+    return v
 
 
 def query(params: dict[str, str | None]) -> str:
